@@ -742,6 +742,39 @@ func ruleLock2(c *Ctx) []*Ob {
 				acc = append(acc, a)
 			}
 		}
+		// a helper that performs part of the move: a call of a moss function that itself stores a section pointer counts as
+		// an access at the call site - in the caller's section if the helper does not lock, in a section of its own if it does.
+		// Only functions that touch section pointers themselves are extended this way (a pure driver such as runMerger, whose
+		// steps are separate sections by design, is not).
+		ownSection := map[ssa.Instruction]bool{}
+		if len(acc) >= 1 {
+			eachInstr(f, func(i ssa.Instruction) {
+				call, ok := i.(*ssa.Call)
+				if !ok {
+					return
+				}
+				g := call.Call.StaticCallee()
+				if g == nil || g == f || g.Pkg != c.Moss || g.Blocks == nil {
+					return
+				}
+				for _, ga := range fieldAccesses(g, func(v *types.Var) bool { return isSectionField(c, v) }) {
+					if ga.Kind != "store" || isFreshAlloc(ga.Base) {
+						continue
+					}
+					locks := false
+					eachInstr(g, func(j ssa.Instruction) {
+						if tn, op, _ := mutexOpOn(j); tn == "collection" && op == "Lock" {
+							locks = true
+						}
+					})
+					acc = append(acc, access{Field: ga.Field, Base: ga.Base, Instr: i, Write: true, Kind: "store"})
+					if locks {
+						ownSection[i] = true
+					}
+					break
+				}
+			})
+		}
 		if len(acc) < 2 {
 			continue
 		}
@@ -749,6 +782,9 @@ func ruleLock2(c *Ctx) []*Ob {
 		openers := make([][]string, len(acc))
 		for k, a := range acc {
 			openers[k] = sectionOpeners(c, a.Instr)
+			if ownSection[a.Instr] {
+				openers[k] = []string{"the helper's own Lock (call at " + c.instrPos(a.Instr) + ")"}
+			}
 		}
 		for k, a1 := range acc {
 			bad := ""
